@@ -497,8 +497,14 @@ class DistributionCase(Case):
         for _ in range(tape.between("dv.pool", 5, 9)):
             n = tape.between("dv.npts", 3, 8)
             pool.append(np.asarray([[tape.draw("dv.coord", 33) / 4.0 for _ in range(dim)] for _ in range(n)], dtype=np.float64))
+        # sometimes one very large point cloud (so that a batch holding it twice exceeds any internal block of ~16k points)
+        if tape.chance("dv.huge", 1, 3):
+            import random as _r
+            rr = _r.Random(tape.subtape_seed("dv.huge_seed"))
+            npts = tape.between("dv.huge_n", 9000, 11000)
+            pool.append(np.asarray([[rr.randrange(33) / 4.0 for _ in range(dim)] for _ in range(npts)], dtype=np.float64))
         c.pool = pool
-        c.train_ids = list(range(tape.between("dv.ntrain", 3, len(pool) - 1)))
+        c.train_ids = list(range(tape.between("dv.ntrain", 3, min(len(pool) - 1, 8))))
         c.params = {"n_components": tape.choice("dv.comp", [2, 3]), "random_state": tape.choice("dv.rs", [0, 42])}
         c.desc.update(params=dict(c.params), pool=len(pool), ntrain=len(c.train_ids), dim=dim)
         return c
